@@ -138,8 +138,35 @@ def run_case(case):
     kept = (p0, first.solver)
     for pos in range(case["hist_len"]):
         kind = str(rng.choice(["resolve_same_object", "fresh_after_other", "fresh_after_other", "fresh_immediately",
-                               "after_raise"]))
-        if kind == "resolve_same_object":
+                               "after_raise", "params_object_reused"]))
+        if kind == "params_object_reused" and case.get("default_params"):
+            kind = "fresh_immediately"
+        if kind == "params_object_reused":
+            # one Params object is first used with other field values (precision, rho, Newton type, ...), then set
+            # to the target's values in place and used for the target solve on a fresh solver
+            import dataclasses as _dc
+
+            from pygradflow.params import NewtonType, Precision
+
+            pt = work.prepare(dict(case), record_sites=False, keep_args=False)
+            target_vals = {f.name: getattr(pt.params, f.name) for f in _dc.fields(pt.params)}
+            changed = {"precision": Precision.Single, "rho": 7.0 * pt.params.rho, "newton_type": NewtonType.Full,
+                       "lamb_init": 3.0 * pt.params.lamb_init, "iteration_limit": 3}
+            pick = [k for k in changed if rng.random() < 0.6] or ["precision"]
+            for k in pick:
+                setattr(pt.params, k, changed[k])
+            try:
+                mon.run_solve(pt.rec, pt.params, pt.x0, pt.y0)   # outcome irrelevant (may raise)
+            except BaseException as ex:
+                if type(ex).__name__ == "CaseTimeout":
+                    raise
+            for k in pick:
+                setattr(pt.params, k, target_vals[k])
+            p2 = work.prepare(dict(case), record_sites=False, keep_args=False)
+            out = mon.run_solve(p2.rec, pt.params, p2.x0, p2.y0)
+            p = p2
+            evals += 1
+        elif kind == "resolve_same_object":
             p, out = run_target(case, solver=kept)
         else:
             if kind == "fresh_after_other":
@@ -194,6 +221,6 @@ def finalize(agg, tier):
                 "is non-trivial when it could be compared step by step and was identical; positions are distinct by "
                 "construction",
         "floors": {"histories": 100, "position_resolve_same_object": 100, "position_fresh_after_other": 150,
-                   "position_after_raise": 80, "default_params_runs": 5},
+                   "position_after_raise": 80, "default_params_runs": 5, "position_params_object_reused": 60},
         "assumptions": ["bit-identical comparison of every trial record, status, counters, x, y, d, dist_factor"],
     }
